@@ -9,8 +9,8 @@
    connection; [OAnswer] processes ONE reconciliation answer, so a history also fixes how the
    answers interleave with everything else.  [boot true] is the world after the very first
    SUBSCRIBE with failover enabled; [no_tamper] = nobody but the core writes the stored id.
-   The KILL rule (states, roster consulted or not) is regenerated from core/task/manager.go on
-   every run (gen/Gen_Reconcile.v). *)
+   The KILL rule (states, tasks of the roster skipped or not) is regenerated from
+   core/task/manager.go on every run (gen/Gen_Reconcile.v). *)
 From Verif Require Import Common Gen_Reconcile Reconcile Reconcile_proofs.
 Open Scope N_scope.
 
@@ -78,39 +78,39 @@ Print Assumptions C18_restart_kill_calls.
 
 (* --- ... and only that: owned tasks are never killed by reconciliation --------------------- *)
 
-(* Full statement: along every history no reconciliation answer makes the core send KILL to a
-   task that is in the roster, locked by a live environment. *)
-Definition C18_reconciliation_spares_owned_statement : Prop :=
-  forall ops, no_tamper ops = true -> spares_owned (boot true) ops = true.
+(* The KILL rule of handleMessage skips the tasks it finds in the roster (recon_guarded = true is
+   what the translator reads off core/task/manager.go since the repair of finding C18-a; with the
+   rule that did not look the task up the three theorems below no longer check, and the history
+   [c18_witness] = create one task, reconnect, process the answer - first corpus case of the
+   harness - shows up as monitor code 4). *)
 
-(* The rule of the pinned tree does not consult the roster (recon_guarded = false is what the
-   translator finds): the statement is false, witness = create one task, reconnect, process the
-   answer.  Replayed on the implementation this is finding C18-a (monitor code 4). *)
-Theorem C18_reconnect_kills_owned_refuted :
-  recon_guarded = false -> ~ C18_reconciliation_spares_owned_statement.
-Proof. exact witness_refutes. Qed.
-Print Assumptions C18_reconnect_kills_owned_refuted.
+(* Full statement: from every world (whatever the failover setting, tampering or not), along
+   every history - restarts at any crash point, reconnections at any point, the answers
+   interleaved in any way with the activity of the life - no reconciliation answer makes the core
+   send KILL to a task that is in the roster, locked by a live environment. *)
+Theorem C18_reconciliation_spares_owned : forall w ops, spares_owned w ops = true.
+Proof. exact spares_owned_full. Qed.
+Print Assumptions C18_reconciliation_spares_owned.
 
-(* Partial: it holds on every history in which each re-established connection finds no owned
-   task in the roster -- whatever the failover setting, tampering or not. *)
-Theorem C18_reconciliation_spares_owned_partial : forall fo ops,
-  reconnects_unowned (boot fo) ops = true -> spares_owned (boot fo) ops = true.
-Proof. exact spares_owned_partial. Qed.
-Print Assumptions C18_reconciliation_spares_owned_partial.
+(* The same at the level of the calls: a KILL sent while a reconciliation answer is processed
+   goes to a task that is not in the roster of the current life at all - a fortiori not an owned
+   one. *)
+Theorem C18_reconciliation_kills_only_unrostered : forall w t,
+  In (CKill t) (snd (step w OAnswer)) -> in_roster t (w_roster w) = false /\ owned w t = false.
+Proof. exact answer_kills_unrostered. Qed.
+Print Assumptions C18_reconciliation_kills_only_unrostered.
 
-(* In particular restarts alone, at any crash point and with the answers interleaved in any way
-   with the activity of the new life, never cost an owned task. *)
-Theorem C18_restart_spares_owned : forall fo ops,
-  no_reconnect ops = true -> spares_owned (boot fo) ops = true.
-Proof. exact restart_spares_owned. Qed.
-Print Assumptions C18_restart_spares_owned.
-
-(* A rule that skips the tasks of the roster (what the translator reports as recon_guarded = true
-   once the code is repaired) satisfies the full statement, from every world. *)
-Theorem C18_roster_check_spares_owned : forall w ops,
-  recon_guarded = true -> spares_owned w ops = true.
-Proof. exact guarded_spares_owned. Qed.
-Print Assumptions C18_roster_check_spares_owned.
+(* A mere reconnection, with all its reconciliation answers processed, costs the current life
+   nothing: roster and environments are what they were, every task of the roster is at the
+   master exactly as before (alive if it was), and whatever KILL it sent went to tasks outside
+   the roster (e.g. the leftovers of a teardown whose KILLs had stayed unanswered). *)
+Theorem C18_reconnect_changes_nothing : forall w,
+  let r := hstep w OReconnect in
+  w_roster (fst r) = w_roster w /\ w_envs (fst r) = w_envs w /\
+  (forall x, In x (w_master w) -> in_roster (mt_id x) (w_roster w) = true -> In x (w_master (fst r))) /\
+  (forall t, In (CKill t) (snd r) -> in_roster t (w_roster w) = false).
+Proof. exact reconnect_untouched. Qed.
+Print Assumptions C18_reconnect_changes_nothing.
 
 (* --- the quiescent semantics the harness validates is one of the histories above ----------- *)
 Theorem C18_quiescent_is_a_history : forall w o,
@@ -119,14 +119,21 @@ Proof. exact hstep_is_run. Qed.
 Print Assumptions C18_quiescent_is_a_history.
 
 (* non-vacuity: on the witness history the environment is alive, its task is owned and alive when
-   the connection is re-established; whether the answer spares it is exactly the roster check;
-   and a restart with two live tasks satisfies the hypotheses of the restart theorems. *)
+   the connection is re-established and the answer about it (RUNNING, a state of the KILL rule) is
+   the one being processed - it is spared, the task stays alive and owned, no KILL is sent; a
+   task outside the roster (teardown whose KILLs stayed unanswered) is killed by the same
+   reconnection; and a restart with two live tasks satisfies the hypotheses of the restart
+   theorems. *)
 Example C18_nonvacuous :
   let w := after (boot true) [OCreate 1; OReconnect] in
   no_tamper c18_witness = true /\
   owned w 0 = true /\ w_pending w = [(0, mesos_running)] /\
-  spares_owned (boot true) c18_witness = recon_guarded /\
-  reconnects_unowned (boot true) c18_witness = false /\
+  memN mesos_running recon_kill_states = true /\
+  spares_owned (boot true) c18_witness = true /\
+  (let r := hstep (after (boot true) [OCreate 1]) OReconnect in
+   kills_of (snd r) = [] /\ map mt_alive (w_master (fst r)) = [true] /\ owned (fst r) 0 = true) /\
+  (let r := hstep (after (boot true) [OCreate 2; ODestroyStuck 0; OCreate 1]) OReconnect in
+   kills_of (snd r) = [0; 1] /\ map mt_alive (w_master (fst r)) = [false; false; true]) /\
   (let v := after (boot true) [OCreate 2; OStart 0] in
    map mt_alive (w_master v) = [true; true] /\
    map mt_alive (w_master (fst (hstep v (OCrash PMidConfigure 1)))) = [false; false; false] /\
